@@ -1,0 +1,117 @@
+//go:build verif
+
+package signing_proposal_fsm
+
+// Contracts for the signing-proposal actions (checked by /verif/gocv; comment-only file).
+//
+//@ spec func sp(m *SigningProposalFSM) *internal.SigningConfirmation = m.payload.SigningProposalPayload
+//@ spec func wfSigning(m *SigningProposalFSM) bool = m != nil && m.payload != nil && wfSgnQ(m.payload) && m.payload.SignatureProposalPayload != nil
+//@ spec func isPsReq(args []interface{}) bool = len(args) == 1 && istype(args[0], requests.SigningProposalBatchPartialSignRequests)
+//@ spec func psReq(args []interface{}) requests.SigningProposalBatchPartialSignRequests = args[0].(requests.SigningProposalBatchPartialSignRequests)
+//@ spec func isErrReq(args []interface{}) bool = len(args) == 1 && istype(args[0], requests.SignatureProposalConfirmationErrorRequest)
+//@ spec func errReq(args []interface{}) requests.SignatureProposalConfirmationErrorRequest = args[0].(requests.SignatureProposalConfirmationErrorRequest)
+//
+// number of participants of the signing quorum whose status is w
+//@ spec func sgnCnt(p *internal.DumpedMachineStatePayload, w internal.SigningParticipantStatus) int = cntSt(dom(sgnQ(p)), vals(sgnQ(p)), fieldmap(internal.SigningProposalParticipant.Status), w)
+//
+// nothing observable about the signing round changed (a nil PartialSigns map may have become an empty one)
+//@ spec func signingViewsSame(m *SigningProposalFSM) bool = unchanged(internal.SigningProposalParticipant.Status, internal.SigningProposalParticipant.UpdatedAt, internal.SigningProposalParticipant.Error, internal.SigningProposalParticipant.Username, internal.SigningProposalParticipant.ParticipantID, "*internal.SigningConfirmation", "*internal.SignatureConfirmation", "*internal.DumpedMachineStatePayload", "map[int]*internal.SigningProposalParticipant", "map[string][]byte", "[]byte") && (forall q *internal.SigningProposalParticipant :: !fresh(q) ==> q.PartialSigns == old(q.PartialSigns) || (old(q.PartialSigns) == nil && len(q.PartialSigns) == 0))
+
+//@ func (*SigningProposalFSM).actionPartialSignConfirmationReceived
+//@   safety C18
+//@   requires wfSigning(m) && injSgn(sgnQ(m.payload))
+//@   ensures[C06.count] err == nil ==> sgnCnt(m.payload, internal.SigningPartialSignsConfirmed) == old(sgnCnt(m.payload, internal.SigningPartialSignsConfirmed)) + 1 && sgnCnt(m.payload, internal.SigningError) == old(sgnCnt(m.payload, internal.SigningError)) && len(sgnQ(m.payload)) == old(len(sgnQ(m.payload)))
+//@   ensures[C05.reject,C06.reject,C18.reject] err != nil ==> signingViewsSame(m)
+//@   ensures[C06.shape] outEvent == "" && response == nil
+//@   ensures[C06.once] err == nil ==> isPsReq(args) && (psReq(args).ParticipantId in old(dom(sgnQ(m.payload)))) && old(sgnQ(m.payload)[psReq(args).ParticipantId].Status) == internal.SigningAwaitPartialSigns && sgnQ(m.payload)[psReq(args).ParticipantId].Status == internal.SigningPartialSignsConfirmed
+//@   ensures[C06.batch] err == nil ==> psReq(args).BatchID == old(sp(m).BatchID)
+//@   ensures[C06.valid] err == nil ==> len(psReq(args).PartialSigns) > 0 && psReq(args).ParticipantId >= 0
+//@   ensures[C06.frame,C10.frame] err == nil ==> (forall q *internal.SigningProposalParticipant :: !fresh(q) && q != old(sgnQ(m.payload)[psReq(args).ParticipantId]) ==> q.Status == old(q.Status) && q.PartialSigns == old(q.PartialSigns) && q.Error == old(q.Error))
+//@   ensures[C06.quorum] err == nil ==> sgnQ(m.payload) == old(sgnQ(m.payload)) && dom(sgnQ(m.payload)) == old(dom(sgnQ(m.payload))) && vals(sgnQ(m.payload)) == old(vals(sgnQ(m.payload)))
+//@   ensures[C06.keep] unchanged("*internal.DumpedMachineStatePayload") && sp(m).BatchID == old(sp(m).BatchID) && sp(m).SrcPayload == old(sp(m).SrcPayload)
+//   the signing deadline (ExpiresAt, fixed when the round became signing-ready) is not renewed per batch, so it must stay disarmed:
+//   a contribution does not move the clock the validator compares it with
+//@   ensures[C06.nodeadline,C07.nodeadline] sp(m).ExpiresAt == old(sp(m).ExpiresAt) && sp(m).UpdatedAt == old(sp(m).UpdatedAt)
+//@   ensures[C01.stored] err == nil ==> (forall i int :: 0 <= i && i < len(psReq(args).PartialSigns) ==> (psReq(args).PartialSigns[i].MessageID in sgnQ(m.payload)[psReq(args).ParticipantId].PartialSigns))
+//@   loop 0 invariant signingProposalParticipant == old(sgnQ(m.payload)[psReq(args).ParticipantId]) && signingProposalParticipant != nil && signingProposalParticipant.PartialSigns != nil
+//@   loop 0 invariant unchanged(internal.SigningProposalParticipant.Status, internal.SigningProposalParticipant.Error, "*internal.SigningConfirmation", "*internal.DumpedMachineStatePayload", "map[int]*internal.SigningProposalParticipant")
+//@   loop 0 invariant forall q *internal.SigningProposalParticipant :: !fresh(q) && q != signingProposalParticipant ==> (q.PartialSigns == old(q.PartialSigns))
+//@   loop 0 invariant forall i int :: 0 <= i && i <= $i ==> (psReq(args).PartialSigns[i].MessageID in signingProposalParticipant.PartialSigns)
+
+//@ func (*SigningProposalFSM).actionConfirmationError
+//@   safety C18
+//@   requires wfSigning(m) && injSgn(sgnQ(m.payload))
+//@   ensures[C06.count] err == nil ==> sgnCnt(m.payload, internal.SigningError) == old(sgnCnt(m.payload, internal.SigningError)) + 1 && sgnCnt(m.payload, internal.SigningPartialSignsConfirmed) == old(sgnCnt(m.payload, internal.SigningPartialSignsConfirmed)) && len(sgnQ(m.payload)) == old(len(sgnQ(m.payload)))
+//@   ensures[C05.reject,C06.reject,C18.reject] err != nil ==> signingViewsSame(m)
+//@   ensures[C06.shape] outEvent == "" && response == nil
+//@   ensures[C06.err] err == nil ==> inEvent == EventSigningPartialSignError && isErrReq(args) && (errReq(args).ParticipantId in old(dom(sgnQ(m.payload)))) && old(sgnQ(m.payload)[errReq(args).ParticipantId].Status) == internal.SigningAwaitPartialSigns && sgnQ(m.payload)[errReq(args).ParticipantId].Status == internal.SigningError && sgnQ(m.payload)[errReq(args).ParticipantId].Error == errReq(args).Error && errReq(args).Error != nil
+//@   ensures[C06.frame,C10.frame] err == nil ==> (forall q *internal.SigningProposalParticipant :: !fresh(q) && q != old(sgnQ(m.payload)[errReq(args).ParticipantId]) ==> q.Status == old(q.Status) && q.PartialSigns == old(q.PartialSigns) && q.Error == old(q.Error))
+//@   ensures[C06.quorum] err == nil ==> sgnQ(m.payload) == old(sgnQ(m.payload)) && dom(sgnQ(m.payload)) == old(dom(sgnQ(m.payload))) && vals(sgnQ(m.payload)) == old(vals(sgnQ(m.payload)))
+//@   ensures[C06.keep] unchanged("*internal.DumpedMachineStatePayload") && sp(m).BatchID == old(sp(m).BatchID) && sp(m).SrcPayload == old(sp(m).SrcPayload)
+//   the signing deadline (ExpiresAt, fixed when the round became signing-ready) is not renewed per batch, so it must stay disarmed:
+//   a contribution does not move the clock the validator compares it with
+//@   ensures[C06.nodeadline,C07.nodeadline] sp(m).ExpiresAt == old(sp(m).ExpiresAt) && sp(m).UpdatedAt == old(sp(m).UpdatedAt)
+
+//@ func (*SigningProposalFSM).actionSigningRestart
+//@   safety C18
+//@   pure
+//@   ensures[C06.restart] err == nil && outEvent == "" && response == nil
+
+// The threshold decision. n = size of the quorum, failed / confirmed = participants whose status is
+// SigningError / SigningPartialSignsConfirmed, t = threshold (all taken in the state at entry).
+//@ spec func sgnExpired(m *SigningProposalFSM) bool = timeBefore(sp(m).ExpiresAt, sp(m).UpdatedAt)
+//@ spec func sgnN(m *SigningProposalFSM) int = len(sgnQ(m.payload))
+//@ spec func sgnFailed(m *SigningProposalFSM) int = sgnCnt(m.payload, internal.SigningError)
+//@ spec func sgnConfirmed(m *SigningProposalFSM) int = sgnCnt(m.payload, internal.SigningPartialSignsConfirmed)
+
+//@ func (*SigningProposalFSM).actionValidateSigningPartialSignsAwaitConfirmations
+//@   safety C18
+//@   requires wfSigning(m) && injSgn(sgnQ(m.payload)) && sgnQ(m.payload) != nil
+//@   ensures[C06.noerr] err == nil
+//@   ensures[C06.timeout] old(sgnExpired(m)) ==> outEvent == eventSigningPartialSignsAwaitCancelByTimeoutInternal && response == nil && signingViewsSame(m)
+//@   ensures[C06.cancel] !old(sgnExpired(m)) && old(sgnFailed(m)) > old(sgnN(m)) - old(m.payload.Threshold) ==> outEvent == eventSigningPartialSignsAwaitCancelByErrorInternal && response == nil && signingViewsSame(m)
+//@   ensures[C06.wait] !old(sgnExpired(m)) && old(sgnFailed(m)) <= old(sgnN(m)) - old(m.payload.Threshold) && old(sgnConfirmed(m)) < old(m.payload.Threshold) ==> outEvent == "" && response == nil && signingViewsSame(m)
+//@   ensures[C06.collect] !old(sgnExpired(m)) && old(sgnFailed(m)) <= old(sgnN(m)) - old(m.payload.Threshold) && old(sgnConfirmed(m)) >= old(m.payload.Threshold) ==> outEvent == eventSigningPartialSignsConfirmedInternal
+//@   ensures[C06.collected.status] outEvent == eventSigningPartialSignsConfirmedInternal ==> (forall k int :: k in sgnQ(m.payload) ==> sgnQ(m.payload)[k].Status == internal.SigningProcess)
+//@   ensures[C06.collected.resp] outEvent == eventSigningPartialSignsConfirmedInternal ==> istype(response, responses.SigningProcessParticipantResponse) && response.(responses.SigningProcessParticipantResponse).BatchID == old(sp(m).BatchID) && response.(responses.SigningProcessParticipantResponse).SrcPayload == old(sp(m).SrcPayload)
+//@   ensures[C06.keep] unchanged("*internal.DumpedMachineStatePayload", "*internal.SigningConfirmation", "map[int]*internal.SigningProposalParticipant", internal.SigningProposalParticipant.PartialSigns, internal.SigningProposalParticipant.Error, "map[string][]byte", "[]byte")
+//@   loop 0 invariant failedParticipantsCount == cntSt($visited, vals(sgnQ(m.payload)), fieldmap(internal.SigningProposalParticipant.Status), internal.SigningError)
+//@   loop 0 invariant unconfirmedParticipants == len(sgnQ(m.payload)) - cntSt($visited, vals(sgnQ(m.payload)), fieldmap(internal.SigningProposalParticipant.Status), internal.SigningPartialSignsConfirmed)
+//@   loop 1 invariant forall k int :: k in $visited ==> sgnQ(m.payload)[k].Status == internal.SigningProcess
+//@   loop 1 invariant unchanged("*internal.DumpedMachineStatePayload", "*internal.SigningConfirmation", "map[int]*internal.SigningProposalParticipant", internal.SigningProposalParticipant.PartialSigns, internal.SigningProposalParticipant.Error, "map[string][]byte", "[]byte")
+//@   loop 2 invariant forall k int :: k in sgnQ(m.payload) ==> sgnQ(m.payload)[k].Status == internal.SigningProcess
+//@   loop 2 invariant unchanged("*internal.DumpedMachineStatePayload", "*internal.SigningConfirmation", "map[int]*internal.SigningProposalParticipant", internal.SigningProposalParticipant.PartialSigns, internal.SigningProposalParticipant.Error, "map[string][]byte", "[]byte")
+//@   loop 2 invariant responseData.BatchID == old(sp(m).BatchID) && responseData.SrcPayload == old(sp(m).SrcPayload)
+
+// entering the signing stage: an empty signing round whose deadline is fixed once
+//@ func (*SigningProposalFSM).actionInitSigningProposal
+//@   safety C18
+//@   requires m != nil && m.payload != nil
+//@   ensures[C05.reject,C06.reject,C18.reject] err != nil ==> unchanged("*internal.DumpedMachineStatePayload", "*internal.SigningConfirmation")
+//@   ensures[C06.init] err == nil ==> outEvent == "" && response == nil && sp(m) != nil && fresh(sp(m)) && sgnQ(m.payload) != nil && len(sgnQ(m.payload)) == 0 && (forall k int :: !(k in sgnQ(m.payload)))
+//@   ensures[C06.keep] m.payload.DKGProposalPayload == old(m.payload.DKGProposalPayload) && m.payload.SignatureProposalPayload == old(m.payload.SignatureProposalPayload) && m.payload.Threshold == old(m.payload.Threshold) && m.payload.PubKeys == old(m.payload.PubKeys) && m.payload.IDs == old(m.payload.IDs) && unchanged("*internal.DKGConfirmation", "*internal.DKGProposalParticipant", "map[int]*internal.DKGProposalParticipant", "[]byte")
+
+//@ spec func isStartReq(args []interface{}) bool = len(args) == 1 && istype(args[0], requests.SigningBatchProposalStartRequest)
+//@ spec func startReq(args []interface{}) requests.SigningBatchProposalStartRequest = args[0].(requests.SigningBatchProposalStartRequest)
+
+// a signing proposal: every DKG participant gets a fresh awaiting record, the batch id and tasks are those of the proposal
+//@ func (*SigningProposalFSM).actionStartSigningProposal
+//@   safety C18
+//@   requires m != nil && m.payload != nil && m.payload.SigningProposalPayload != nil && wfDkgQ(m.payload) && injDkg(dkgQ(m.payload))
+//@   ensures[C05.reject,C06.reject,C18.reject] err != nil ==> unchanged("*internal.DumpedMachineStatePayload", "*internal.SigningConfirmation", "*internal.SigningProposalParticipant", "map[int]*internal.SigningProposalParticipant")
+//@   ensures[C06.start] err == nil ==> isStartReq(args) && outEvent == inEvent && sp(m) == old(sp(m)) && sp(m).BatchID == startReq(args).BatchID && len(sp(m).BatchID) > 0 && sp(m).InitiatorId == startReq(args).ParticipantId && sgnQ(m.payload) != nil && fresh(sgnQ(m.payload)) && (forall k int :: (k in sgnQ(m.payload)) == old(k in dkgQ(m.payload))) && len(sgnQ(m.payload)) == old(len(dkgQ(m.payload)))
+//@   ensures[C06.start.records] err == nil ==> (forall k int :: k in sgnQ(m.payload) ==> sgnQ(m.payload)[k] != nil && fresh(sgnQ(m.payload)[k]) && sgnQ(m.payload)[k].Status == internal.SigningAwaitPartialSigns && sgnQ(m.payload)[k].Username == old(dkgQ(m.payload)[k].Username) && sgnQ(m.payload)[k].Error == nil && sgnQ(m.payload)[k].PartialSigns == nil)
+//@   ensures[C06.start.inj] err == nil ==> injSgn(sgnQ(m.payload))
+//@   ensures[C06.start.resp,C03.resp] err == nil ==> istype(response, responses.SigningPartialSignsParticipantInvitationsResponse) && response.(responses.SigningPartialSignsParticipantInvitationsResponse).BatchID == startReq(args).BatchID && response.(responses.SigningPartialSignsParticipantInvitationsResponse).SrcPayload == sp(m).SrcPayload
+//@   ensures[C06.keep] sp(m).ExpiresAt == old(sp(m).ExpiresAt) && sp(m).UpdatedAt == old(sp(m).UpdatedAt) && m.payload.Threshold == old(m.payload.Threshold) && m.payload.DKGProposalPayload == old(m.payload.DKGProposalPayload) && m.payload.PubKeys == old(m.payload.PubKeys) && m.payload.IDs == old(m.payload.IDs) && unchanged("*internal.DKGConfirmation", "map[int]*internal.DKGProposalParticipant", internal.DKGProposalParticipant.Status, internal.DKGProposalParticipant.Username, internal.DKGProposalParticipant.DkgMasterKey, "[]byte")
+//@   loop 0 invariant m.payload == old(m.payload) && sp(m) == old(sp(m)) && sgnQ(m.payload) != nil && fresh(sgnQ(m.payload)) && allocated(sgnQ(m.payload))
+//@   loop 0 invariant sp(m).BatchID == startReq(args).BatchID && sp(m).InitiatorId == startReq(args).ParticipantId && sp(m).ExpiresAt == old(sp(m).ExpiresAt) && sp(m).UpdatedAt == old(sp(m).UpdatedAt)
+//@   loop 0 invariant len(sgnQ(m.payload)) == $i + 1
+//@   loop 0 invariant forall k int :: (k in sgnQ(m.payload)) <==> (exists j int :: 0 <= j && j <= $i && k == $range[j].ParticipantID)
+//@   loop 0 invariant forall k int :: k in sgnQ(m.payload) ==> sgnQ(m.payload)[k] != nil && fresh(sgnQ(m.payload)[k]) && allocated(sgnQ(m.payload)[k]) && sgnQ(m.payload)[k].Status == internal.SigningAwaitPartialSigns && sgnQ(m.payload)[k].Username == old(dkgQ(m.payload)[k].Username) && sgnQ(m.payload)[k].Error == nil && sgnQ(m.payload)[k].PartialSigns == nil
+//@   loop 0 invariant forall a int, b int :: (a in sgnQ(m.payload)) && (b in sgnQ(m.payload)) && a != b ==> sgnQ(m.payload)[a] != sgnQ(m.payload)[b]
+//@   loop 1 invariant m.payload == old(m.payload) && sp(m) == old(sp(m)) && sgnQ(m.payload) != nil && fresh(sgnQ(m.payload)) && (forall k int :: (k in sgnQ(m.payload)) == old(k in dkgQ(m.payload))) && len(sgnQ(m.payload)) == old(len(dkgQ(m.payload)))
+//@   loop 1 invariant sp(m).BatchID == startReq(args).BatchID && sp(m).InitiatorId == startReq(args).ParticipantId && sp(m).ExpiresAt == old(sp(m).ExpiresAt) && sp(m).UpdatedAt == old(sp(m).UpdatedAt)
+//@   loop 1 invariant forall k int :: k in sgnQ(m.payload) ==> sgnQ(m.payload)[k] != nil && fresh(sgnQ(m.payload)[k]) && sgnQ(m.payload)[k].Status == internal.SigningAwaitPartialSigns && sgnQ(m.payload)[k].Username == old(dkgQ(m.payload)[k].Username) && sgnQ(m.payload)[k].Error == nil && sgnQ(m.payload)[k].PartialSigns == nil
+//@   loop 1 invariant injSgn(sgnQ(m.payload))
+//@   loop 1 invariant responseData.BatchID == startReq(args).BatchID && responseData.SrcPayload == sp(m).SrcPayload
